@@ -191,6 +191,40 @@ func genSpineCase(r *rand.Rand, h int) Case {
 	return Case{cfg, ops}
 }
 
+// genGrowPairCase: the version just before and the version just after the insert that makes the
+// tree grow by a level (size bf^(h+1) -> bf^(h+1)+1), where every key of the old top node has a
+// layer above the old height: all of them move into the new top node and each child of the old top
+// node ends up, unchanged, under a new entry-less node.  Everything below those is common to both
+// versions and must be skipped; diffed in both directions.
+func genGrowPairCase(r *rand.Rand) Case {
+	cfg := Cfg{BF: 2, Fmt: pick(r, []string{"bin", "json"}), KK: "vk", VKind: "u64", Cache: "none"}
+	vk := func(id, layer int) uint64 { return uint64(id)<<8 | uint64(layer) }
+	h := 4 + r.Intn(3)
+	span := 1 << uint(h+1)
+	m := 2 + r.Intn(2*h-2)
+	for (m+1)*h+m > span-2 {
+		m--
+	}
+	ops := []string{"new 0"}
+	var keys []uint64
+	for j := 1; j <= m; j++ {
+		keys = append(keys, vk(j*1000, h+1+r.Intn(2)))
+	}
+	for j := 0; j <= m; j++ {
+		for l := 0; l < h; l++ {
+			keys = append(keys, vk(j*1000+1+(1<<uint(l)), l))
+		}
+	}
+	for i := 0; len(keys) < span; i++ {
+		keys = append(keys, vk((i%(m+1))*1000+200+2*(i/(m+1)), 0))
+	}
+	for _, k := range keys {
+		ops = append(ops, opIns(0, k, 1))
+	}
+	ops = append(ops, "root 0 0", opIns(0, vk((m+1)*1000, h+1), 1), "root 0 1", "load 0 1", "load 1 2", "diffloads 1 2", "diffloads 2 1")
+	return Case{cfg, ops}
+}
+
 func famDiffCost(f *FamCtx) {
 	f.Sig = func(o Outcome) string {
 		if o.Kind == "oracle" && strings.Contains(o.Viol, "bound 2*D+2") && o.ModelAgrees {
@@ -200,6 +234,9 @@ func famDiffCost(f *FamCtx) {
 	}
 	for h := 5; h <= 6; h++ {
 		f.RunTreeCase(genSpineCase(f.Rand, h), exactRunner, multiLevel)
+	}
+	for i := 0; i < f.N(4, 60); i++ {
+		f.RunTreeCase(genGrowPairCase(f.Rand), exactRunner, multiLevel)
 	}
 	f.Report.Rule = "as difflinks, plus large trees (150-400 keys) differing in a few keys; DiffIter on ordered pairs of reloaded versions over a store without cache: the set of names passed to Persist.Load compared with the model's load trace (diffOne + alreadyNotified), with 'same version reads nothing' and with the 2*D+2 bound; non-trivial = reached height >= 1 and changed height"
 	f.Gen = func() Case { return genVersionsCase(f.Rand, RandCfg(f.Rand), "diffloads", f.Rand.Intn(3) == 0) }
